@@ -964,7 +964,14 @@ func c20SortedKeys(m map[string]bool) []string {
 	return out
 }
 
+// c20SrcMeasure: per axis, the kinds of extent ("ext" = Dx/Dy or Max-Min, "extmax" = Bounds().Max) by which
+// resizeImage measures its source on some path; filled by c20ResizeImage, read by clause p.
+var c20SrcMeasure map[string]map[string]bool
+
+var c20MeasureName = map[string]string{"ext": "the extent (Dx/Dy)", "extmax": "the Max coordinate of Bounds()"}
+
 func runC20(c *Ctx) {
+	c20SrcMeasure = map[string]map[string]bool{"w": {}, "h": {}}
 	c.Clauses = []string{
 		"C20.a in resizeImage the destination width and height are, on every non-fit path, the source extents multiplied by one common factor that is the smaller of box/image ratios (reaching definitions, path-feasible)",
 		"C20.b samePlacement returns true only if every non-function field of placement is equal, and false only under a differing field",
@@ -979,6 +986,7 @@ func runC20(c *Ctx) {
 		"C20.k every placement queued by a Draw sets all fields: position from win.Origin(), identity from the image, functions non-nil",
 		"C20.m kitty put/delete commands address the same image id and placement id, delete keeps the image data",
 		"C20.n a renderer that averages the pixel pair of a cell averages the lower pixel iff it exists (its row is below the pixel height)",
+		"C20.p each Resize computes CellSize from the same notion of size (Bounds().Max or extent) by which resizeImage tested and scaled the source, which it may return untouched",
 	}
 	c.NotDec = []string{"aspect ratio within one cell and rounding of the scaled extents (arithmetic over values)", "the averaged colour values themselves", "nearest-neighbour sampling (x/image/draw)", "sixel/PNG encoders"}
 	c.Assume = append(c.Assume, "scale factors are not NaN (the source image is not empty)", "calls made inside the analysed functions do not modify their locals or the receiver's geometry fields")
@@ -996,6 +1004,7 @@ func runC20(c *Ctx) {
 	c.expect("C20.k", 8)  // Size, Origin, 3 per payload kind
 	c.expect("C20.m", 2)  // kitty put, delete
 	c.expect("C20.n", 1)  // full block
+	c.expect("C20.p", 10) // width and height of the four image kinds + pixel origin of the two block kinds
 	pk := c.P.Pkg("vaxis")
 	if pk == nil {
 		c.undecided("C20.a", "vaxis", 0, "package not loaded")
@@ -1207,6 +1216,7 @@ func c20ResizeImage(c *Ctx) {
 		} else {
 			agg.note("C20.g", keyCeil(ax), p, cc.status, "%s [path: %s]", cc.why, c20Conds(st))
 		}
+		c20SrcMeasure[ax][cc.ext.kind] = true
 		if cc.ext.kind == "ext" {
 			agg.ok("C20.h", keyExt(ax), p, "%s is Dx/Dy or Max-Min", cc.ext.disp)
 		} else {
@@ -1334,6 +1344,7 @@ func c20ResizeImage(c *Ctx) {
 			default:
 				agg.und("C20.a", key, p, "factor %s is not one of the box/image ratios", F.disp)
 			}
+			c20SrcMeasure[d.ax][S.kind] = true
 			if S.kind == "ext" {
 				agg.ok("C20.h", keyExt(d.ax), p, "%s is Dx/Dy or Max-Min", S.disp)
 			} else {
@@ -1577,6 +1588,11 @@ func c20ResizeMethod(c *Ctx, k *c20Kind) {
 	agg.declare("C20.g", keyArgs, pos)
 	agg.declare("C20.g", keySize("w"), pos)
 	agg.declare("C20.g", keySize("h"), pos)
+	keySame := func(ax string) string {
+		return name + "/CellSize " + c20AxisName[ax] + " measures the returned image the way resizeImage measured the source (both Bounds().Max or both extent)"
+	}
+	agg.declare("C20.p", keySame("w"), pos)
+	agg.declare("C20.p", keySame("h"), pos)
 	resizeObj := c.P.Func("vaxis.resizeImage").Obj
 
 	cellGeom := func(a *c20Val, pix, cnt string) (bool, string) {
@@ -1662,6 +1678,21 @@ func c20ResizeMethod(c *Ctx, k *c20Kind) {
 				agg.bad("C20.g", key, pos, "%s.%s divides by %s although resizeImage was told a cell is %s pixels", recv.Name(), k.sizeF[i].Name(), cc.den.disp, den.disp)
 			default:
 				agg.note("C20.g", key, pos, cc.status, "%s [path: %s]", cc.why, c20Conds(st))
+			}
+			// clause p: the caller measures the returned image the way resizeImage measured the source.
+			// resizeImage hands the source back untouched when it fits, so an image whose Bounds().Min is
+			// not (0,0) reaches the caller: Max there and extent here (or the reverse) disagree by Min.
+			if cc.ok && cc.ext.img == cv && cc.ext.axis == ax {
+				kp := keySame(ax)
+				src := c20SrcMeasure[ax]
+				switch {
+				case len(src) != 1:
+					agg.und("C20.p", kp, pos, "resizeImage measures the source %s in %d ways (%v); nothing to agree with", c20AxisName[ax], len(src), c20SortedKeys(src))
+				case src[cc.ext.kind]:
+					agg.ok("C20.p", kp, pos, "both use %s", c20MeasureName[cc.ext.kind])
+				default:
+					agg.bad("C20.p", kp, pos, "resizeImage tests and scales the source %s as %s, but %s.%s is computed from %s (%s) of the image it returns; a source that fits is returned untouched, so for an image whose Bounds().Min is not (0,0) the two differ by Min: CellSize reports more (or fewer) cells than the box that was tested", c20AxisName[ax], c20MeasureName[c20SortedKeys(src)[0]], recv.Name(), k.sizeF[i].Name(), cc.ext.disp, c20MeasureName[cc.ext.kind])
+				}
 			}
 		}
 	}
@@ -1803,6 +1834,7 @@ func c20BlockKind(c *Ctx, k *c20Kind) {
 	keyThr := name + "/every arm knows on which side of transparentEnough each alpha lies"
 	agg.declare("C20.i", keyMap, pos)
 	agg.declare("C20.e", keyThr, pos)
+	agg.declare("C20.p", name+"/pixel reads start at Bounds().Min exactly when sizes are measured as extents", pos)
 	_ = relBelowDoc
 	wKey := fmt.Sprintf("%p.%s", recv, k.sizeF[0].Name())
 
@@ -1920,6 +1952,36 @@ func c20BlockKind(c *Ctx, k *c20Kind) {
 			}
 			return false
 		}
+		// an offset by Bounds().Min of the image read (clause p decides whether it has to be there)
+		stripMin := func(v *c20Val, ax string) (*c20Val, bool) {
+			if v.kind == "bin" && v.op == token.ADD {
+				for i := 0; i < 2; i++ {
+					if m := v.args[i]; m.kind == "extmin" && m.axis == ax && m.img == cv {
+						return v.args[1-i], true
+					}
+				}
+			}
+			return v, false
+		}
+		colV, colMin := stripMin(top.args[1], "w")
+		rowV, rowMin := stripMin(top.args[2], "h")
+		keyOrg := name + "/pixel reads start at Bounds().Min exactly when sizes are measured as extents"
+		for _, o := range []struct {
+			ax  string
+			has bool
+		}{{"w", colMin}, {"h", rowMin}} {
+			src := c20SrcMeasure[o.ax]
+			switch {
+			case len(src) != 1:
+				agg.und("C20.p", keyOrg, p, "resizeImage measures the source %s in %d ways", c20AxisName[o.ax], len(src))
+			case src["ext"] == o.has:
+				agg.ok("C20.p", keyOrg, p, "offset by Min: %v, sizes are %s", o.has, c20MeasureName[c20SortedKeys(src)[0]])
+			case o.has:
+				agg.bad("C20.p", keyOrg, p, "the pixel %s is offset by Bounds().Min although sizes are Bounds().Max coordinates: pixels beyond the image are read", map[string]string{"w": "column", "h": "row"}[o.ax])
+			default:
+				agg.bad("C20.p", keyOrg, p, "sizes are extents (Dx/Dy) but the pixel %s is counted from 0, not from Bounds().Min: for an image that resizeImage returns untouched and whose Min is not (0,0) the cells show pixels outside the image", map[string]string{"w": "column", "h": "row"}[o.ax])
+			}
+		}
 		var probs []string
 		if top.args[0] != cv || (bot != nil && bot.args[0] != cv) {
 			probs = append(probs, "a pixel is read from "+top.args[0].disp+", not from the image resizeImage returned")
@@ -1927,10 +1989,10 @@ func c20BlockKind(c *Ctx, k *c20Kind) {
 		if bot != nil && top.args[1] != bot.args[1] {
 			probs = append(probs, "the two reads use different columns")
 		}
-		if !isMod(top.args[1]) {
+		if !isMod(colV) {
 			probs = append(probs, fmt.Sprintf("the pixel column %s is not i mod %s.%s", top.args[1].disp, recv.Name(), k.sizeF[0].Name()))
 		}
-		if !isRow2(top.args[2]) {
+		if !isRow2(rowV) {
 			probs = append(probs, fmt.Sprintf("the upper pixel row %s is not 2*(i div %s.%s)", top.args[2].disp, recv.Name(), k.sizeF[0].Name()))
 		}
 		if len(probs) > 0 {
@@ -1938,18 +2000,10 @@ func c20BlockKind(c *Ctx, k *c20Kind) {
 		} else {
 			agg.ok("C20.i", keyMap, p, "reads %s and %s", top.disp, bot)
 		}
-		// the pixel below exists iff its row is less than the pixel height of the image
-		var H *c20Val
-		for _, v := range st.vals {
-			if (v.kind == "ext" || v.kind == "extmax") && v.axis == "h" && v.img == cv {
-				H = v
-			}
-		}
-		belowRow := func() *c20Val { // the value top.y + 1, if it was computed on this path
-			if bot != nil {
-				return bot.args[2]
-			}
-			y := top.args[2]
+		// the pixel below exists iff its row is less than the pixel height of the image: either the
+		// absolute row against Bounds().Max.Y (any measure when rows are counted from 0), or, when the
+		// reads are offset by Bounds().Min, the relative row against the extent
+		plusOne := func(y *c20Val) *c20Val { // the value y + 1, if it was computed on this path
 			for _, v := range st.vals {
 				if v.kind == "inc" && v.inc == 1 && v.base == y {
 					return v
@@ -1963,10 +2017,38 @@ func c20BlockKind(c *Ctx, k *c20Kind) {
 				}
 			}
 			return nil
-		}()
+		}
+		heights := func(kinds ...string) []*c20Val {
+			var out []*c20Val
+			for _, v := range st.vals {
+				if v.axis == "h" && v.img == cv {
+					for _, k := range kinds {
+						if v.kind == k {
+							out = append(out, v)
+						}
+					}
+				}
+			}
+			return out
+		}
 		var relBelow uint8 = c20LT | c20EQ | c20GT
-		if H != nil && belowRow != nil {
-			relBelow = st.relOf(belowRow, H)
+		consider := func(below *c20Val, hs []*c20Val) {
+			if below == nil {
+				return
+			}
+			for _, h := range hs {
+				relBelow &= st.relOf(below, h)
+			}
+		}
+		absBelow := plusOne(top.args[2])
+		if bot != nil {
+			absBelow = bot.args[2]
+		}
+		if rowMin {
+			consider(absBelow, heights("extmax"))
+			consider(plusOne(rowV), heights("ext"))
+		} else {
+			consider(absBelow, heights("ext", "extmax"))
 		}
 
 		// --- what is stored
